@@ -253,7 +253,8 @@ def native_replay(prop, cfg, tests, release=False, log=None):
     reproduced: True if some test fails (panics) natively."""
     os.makedirs(GEN, exist_ok=True)
     with open(os.path.join(GEN, "replay.rs"), "w") as f:
-        f.write("\n".join(tests) + "\n")
+        # harness modules import heapless' `Vec`: name std's explicitly in the generated tests
+        f.write("\n".join(t.replace("Vec<Vec<u8>>", "std::vec::Vec<std::vec::Vec<u8>>") for t in tests) + "\n")
     env = dict(ENV)
     env["CARGO_TARGET_DIR"] = os.path.join(WORK, "t-playback")
     cmd = ["cargo", "kani", "playback", "-Z", "concrete-playback",
